@@ -75,7 +75,7 @@ def createOutsidePackageClass (safe : Bool) (classPath : String) (created : List
       .ok ({ path := file, mode := .append, text := outsideClassText className safe }, created')
     else
       let pyPath := joinWith "." pathPartsL
-      let camel := convertName pyPath safe
+      let camel := convertPath pyPath safe
       let header := (if pyPath != camel then "@PythonModule(\"" ++ pyPath ++ "\")\n" else "")
         ++ "package " ++ escapePath camel ++ "\n"
       .ok ({ path := file, mode := .write, text := header ++ outsideClassText className safe }, created')
